@@ -20,7 +20,7 @@ fn is_trunc_of(x: f64, p: f64) -> bool {
     }
 }
 
-fn check_ym(r: crate::error::Result<IntervalYM>, p: f64) {
+fn check_ym(r: &crate::error::Result<IntervalYM>, p: f64) {
     if p.is_nan() {
         assert!(matches!(r, Err(Error::InvalidNumber)));
     } else if p.is_infinite() {
@@ -38,50 +38,65 @@ fn check_ym(r: crate::error::Result<IntervalYM>, p: f64) {
     }
 }
 
-//@ unit c14_ym prop=C14,C02,C03 chunks=ints:0,1,-1,11,-11,12,13,-13,1000,-999,2136000000,-2136000000,2135999999,-2135999999,1068000000,7 quickn=8 mem=3 timeout=900 bound="year-month interval = the parameter (months), multiplier/divisor = every f64: classification (NaN -> InvalidNumber, inf -> NumericOverflow, zero divisor -> DivideByZero, out of range -> IntervalOutOfRange), truncation toward zero, exactness for integer multipliers, sign symmetry"
-fn c14_ym(v: i32) {
+//@ unit c14_ym_mul prop=C14,C02,C03 chunks=ints:2136000000,1,-1,11,-13,1000,2135999999,7,-2136000000 quickn=4 mem=4 timeout=900/3600 bound="year-month interval = the parameter (months), multiplier = every f64 (all bit patterns): NaN -> InvalidNumber, infinite -> NumericOverflow, |product| >= max+1 -> IntervalOutOfRange, otherwise Ok(product truncated toward zero)"
+fn c14_ym_mul(v: i32) {
     let k: f64 = kani::any();
-    let x = mk_ym(v);
     let p = v as f64 * k;
-    let r = x.mul_f64(k);
-    check_ym(r, p);
-    // (-x)*k == -(x*k) == x*(-k)
-    let r1 = mk_ym(-v).mul_f64(k);
-    let r2 = x.mul_f64(-k);
-    match (r, r1, r2) {
-        (Ok(a), Ok(b), Ok(c)) => assert!(b.months() == -a.months() && c.months() == -a.months()),
-        (Err(_), Err(_), Err(_)) => {}
-        _ => assert!(false),
-    }
-    // exact for integer multipliers while the product is exactly representable
-    let ki: i32 = kani::any();
-    let prod = v as i64 * ki as i64;
-    match x.mul_f64(ki as f64) {
-        Ok(a) => assert!(a.months() as i64 == prod),
-        Err(e) => assert!((prod > YM_MAX as i64 || prod < -(YM_MAX as i64)) && matches!(e, Error::IntervalOutOfRange)),
-    }
-    // division
-    let q = v as f64 / k;
-    let rd = x.div_f64(k);
+    let r = mk_ym(v).mul_f64(k);
+    check_ym(&r, p);
+    kani::cover!(k.is_nan());
+    kani::cover!(k.is_infinite());
+    kani::cover!(k > -1.0 && k < 1.0 && k != 0.0);
+}
+
+//@ unit c14_ym_div prop=C14,C02,C03 chunks=ints:2136000000,1,-1,11,-13,1000,2135999999,7,-2136000000 quickn=4 mem=4 timeout=900/3600 bound="year-month interval = the parameter, divisor = every f64: +-0 -> DivideByZero, NaN -> InvalidNumber, infinite quotient -> NumericOverflow, out of range -> IntervalOutOfRange, otherwise Ok(quotient truncated toward zero)"
+fn c14_ym_div(v: i32) {
+    let k: f64 = kani::any();
+    let rd = mk_ym(v).div_f64(k);
     if k == 0.0 {
         assert!(matches!(rd, Err(Error::DivideByZero)));
         kani::cover!(k.is_sign_negative());
     } else {
-        check_ym(rd, q);
+        check_ym(&rd, v as f64 / k);
     }
-    // exact quotient for integer divisors that divide evenly
+    kani::cover!(k.is_nan());
+    kani::cover!(k > 1.0);
+}
+
+//@ unit c14_ym_int prop=C14,C02,C03 chunks=ints:2136000000,1,-1,12,-13,1000,178000000,7,-2136000000 quickn=4 mem=4 timeout=900/3600 bound="year-month interval = the parameter, factor = every i32 (as f64): the product is exact (x*k, or IntervalOutOfRange when it leaves the range); the quotient is exact whenever k divides x"
+fn c14_ym_int(v: i32) {
+    let ki: i32 = kani::any();
+    let prod = v as i64 * ki as i64;
+    match mk_ym(v).mul_f64(ki as f64) {
+        Ok(a) => assert!(a.months() as i64 == prod),
+        Err(e) => assert!((prod > YM_MAX as i64 || prod < -(YM_MAX as i64)) && matches!(e, Error::IntervalOutOfRange)),
+    }
     if ki != 0 && v as i64 % ki as i64 == 0 {
-        match x.div_f64(ki as f64) {
+        match mk_ym(v).div_f64(ki as f64) {
             Ok(a) => assert!(a.months() as i64 == v as i64 / ki as i64),
             Err(_) => assert!(false),
         }
     }
-    kani::cover!(k.is_nan());
-    kani::cover!(k.is_infinite());
-    kani::cover!(p.is_finite() && k != 0.0 && k > -1.0 && k < 1.0);
+    kani::cover!(prod == YM_MAX as i64);
+    kani::cover!(ki == -1);
 }
 
-fn check_dt(r: crate::error::Result<IntervalDT>, p: f64) {
+//@ unit c14_ym_sym prop=C14,C03 chunks=ints:2136000000,1,-11,1000,-2135999999 quickn=3 mem=4 timeout=900/3600 bound="year-month interval = the parameter, multiplier = every f64: (-x)*k == -(x*k) == x*(-k), errors on all three or none"
+fn c14_ym_sym(v: i32) {
+    let k: f64 = kani::any();
+    let r = mk_ym(v).mul_f64(k);
+    let r1 = mk_ym(-v).mul_f64(k);
+    let r2 = mk_ym(v).mul_f64(-k);
+    match (&r, &r1, &r2) {
+        (Ok(a), Ok(b), Ok(c)) => assert!(b.months() == -a.months() && c.months() == -a.months()),
+        (Err(_), Err(_), Err(_)) => {}
+        _ => assert!(false),
+    }
+    kani::cover!(r.is_ok());
+    kani::cover!(r.is_err());
+}
+
+fn check_dt(r: &crate::error::Result<IntervalDT>, p: f64) {
     if p.is_nan() {
         assert!(matches!(r, Err(Error::InvalidNumber)));
     } else if p.is_infinite() {
@@ -109,39 +124,51 @@ fn check_dt(r: crate::error::Result<IntervalDT>, p: f64) {
     }
 }
 
-//@ unit c14_dt_mul prop=C14,C02,C03 chunks=ints:0,1,-1,1000000,-999999,86399999999,86400000000,-86400000001,8640000000000000000,-8640000000000000000,8639999999999999999,123456789012345,1000000000000,-60000000 quickn=5 mem=6 timeout=1500/3600 bound="day-time interval = the parameter (microseconds), multiplier = every f64: classification, truncation toward zero, exactness for i32 multipliers below 2^53, sign symmetry"
+//@ unit c14_dt_mul prop=C14,C02,C03 chunks=ints:8640000000000000000,1,-1,1000000,86399999999,-86400000001,8639999999999999999,123456789012345,-8640000000000000000 quickn=3 mem=6 timeout=1500/3600 bound="day-time interval = the parameter (microseconds), multiplier = every f64: classification and truncation toward zero"
 fn c14_dt_mul(v: i64) {
     let k: f64 = kani::any();
-    let x = mk_dt(v);
     let p = v as f64 * k;
-    let r = x.mul_f64(k);
-    check_dt(r, p);
-    let r2 = x.mul_f64(-k);
-    match (r, r2) {
-        (Ok(a), Ok(c)) => assert!(c.usecs() == -a.usecs()),
-        (Err(_), Err(_)) => {}
-        _ => assert!(false),
-    }
+    let r = mk_dt(v).mul_f64(k);
+    check_dt(&r, p);
+    kani::cover!(k.is_nan());
+    kani::cover!(k.is_infinite());
+    kani::cover!(p.is_finite() && k > 0.0 && k < 1.0);
+}
+
+//@ unit c14_dt_sym prop=C14,C03 chunks=ints:8640000000000000000,1,-999999,86400000000,-8639999999999999999 quickn=2 mem=6 timeout=1500/3600 bound="day-time interval = the parameter, multiplier = every f64: (-x)*k == -(x*k) == x*(-k)"
+fn c14_dt_sym(v: i64) {
+    let k: f64 = kani::any();
+    let r = mk_dt(v).mul_f64(k);
     let r1 = mk_dt(-v).mul_f64(k);
-    match (r, r1) {
-        (Ok(a), Ok(b)) => assert!(b.usecs() == -a.usecs()),
-        (Err(_), Err(_)) => {}
+    let r2 = mk_dt(v).mul_f64(-k);
+    match (&r, &r1, &r2) {
+        (Ok(a), Ok(b), Ok(c)) => assert!(b.usecs() == -a.usecs() && c.usecs() == -a.usecs()),
+        (Err(_), Err(_), Err(_)) => {}
         _ => assert!(false),
     }
+    kani::cover!(r.is_ok());
+}
+
+//@ unit c14_dt_int prop=C14,C02,C03 chunks=ints:1,-1,1000000,86400000000,-60000000,123456789012,4194304 quickn=3 mem=6 timeout=1500/3600 bound="day-time interval = the parameter (below 2^53), factor = every i32 (as f64): the product is exact while |x*k| < 2^53; the quotient is exact whenever k divides x"
+fn c14_dt_int(v: i64) {
     let ki: i32 = kani::any();
     let prod = v as i128 * ki as i128;
-    if prod < 9007199254740992 && prod > -9007199254740992 && v < 9007199254740992 && v > -9007199254740992 {
-        match x.mul_f64(ki as f64) {
+    if prod < 9007199254740992 && prod > -9007199254740992 {
+        match mk_dt(v).mul_f64(ki as f64) {
             Ok(a) => assert!(a.usecs() as i128 == prod),
             Err(_) => assert!(false),
         }
     }
-    kani::cover!(k.is_nan());
-    kani::cover!(p.is_infinite() && k.is_finite());
-    kani::cover!(p.is_finite() && k > 0.0 && k < 1.0);
+    if ki != 0 && v % ki as i64 == 0 {
+        match mk_dt(v).div_f64(ki as f64) {
+            Ok(a) => assert!(a.usecs() == v / ki as i64),
+            Err(_) => assert!(false),
+        }
+    }
+    kani::cover!(ki == i32::MAX);
 }
 
-//@ unit c14_dt_div prop=C14,C02,C03 chunks=ints:0,1,-1,1000000,-999999,86399999999,86400000000,8640000000000000000,-8640000000000000000,123456789012345,-60000000 quickn=4 mem=6 timeout=1500/3600 bound="day-time interval = the parameter, divisor = every f64: zero divisor (+-0) -> DivideByZero, classification, truncation toward zero, exact quotient for i32 divisors that divide evenly"
+//@ unit c14_dt_div prop=C14,C02,C03 chunks=ints:1,0,-1,1000000,-999999,86399999999,86400000000,8640000000000000000,123456789012345,-60000000,-8640000000000000000 quickn=3 mem=6 timeout=1500/3600 bound="day-time interval = the parameter, divisor = every f64: zero divisor (+-0) -> DivideByZero, classification, truncation toward zero, exact quotient for i32 divisors that divide evenly"
 fn c14_dt_div(v: i64) {
     let k: f64 = kani::any();
     let x = mk_dt(v);
@@ -152,38 +179,31 @@ fn c14_dt_div(v: i64) {
         kani::cover!(k.is_sign_positive());
     } else {
         let q = v as f64 / k;
-        check_dt(rd, q);
-        kani::cover!(q.is_finite() && q > 1.0);
-    }
-    let ki: i32 = kani::any();
-    if ki != 0 && v % ki as i64 == 0 && v < 9007199254740992 && v > -9007199254740992 {
-        match x.div_f64(ki as f64) {
-            Ok(a) => assert!(a.usecs() == v / ki as i64),
-            Err(_) => assert!(false),
-        }
+        check_dt(&rd, q);
+        kani::cover!(k > 1.0);
     }
     kani::cover!(k.is_nan());
 }
 
-//@ unit c14_time prop=C14,C02,C03 chunks=ints:0,1,43200000000,86399999999,3600000000 quickn=3 mem=6 timeout=1500/3600 bound="time of day = the parameter (microseconds), number = every f64: Time::mul_f64/div_f64 equal the day-time interval of the same microsecond count"
+//@ unit c14_time prop=C14 tier=thorough chunks=ints:0,1,43200000000,86399999999,3600000000 mem=6 timeout=3600 bound="time of day = the parameter (microseconds), number = every f64: Time::mul_f64/div_f64 equal the day-time interval of the same microsecond count"
 fn c14_time(t: i64) {
     let k: f64 = kani::any();
     let tm = mk_time(t);
     let a = tm.mul_f64(k);
     let b = mk_dt(t).mul_f64(k);
-    match (a, b) {
+    match (&a, &b) {
         (Ok(x), Ok(y)) => assert!(x == y),
         (Err(Error::InvalidNumber), Err(Error::InvalidNumber)) => {}
         (Err(Error::NumericOverflow), Err(Error::NumericOverflow)) => {}
         (Err(Error::IntervalOutOfRange), Err(Error::IntervalOutOfRange)) => {}
         _ => assert!(false),
     }
-    check_dt(a, t as f64 * k);
+    check_dt(&a, t as f64 * k);
     let c = tm.div_f64(k);
     if k == 0.0 {
         assert!(matches!(c, Err(Error::DivideByZero)));
     } else {
-        check_dt(c, t as f64 / k);
+        check_dt(&c, t as f64 / k);
     }
     kani::cover!(k.is_nan());
     kani::cover!(k == 0.0);
